@@ -50,6 +50,9 @@ type Spec struct {
 	Clock     []string          `json:"clock"` // package dirs whose time.Now() calls are rewritten for native replay
 	Ghost     bool              `json:"ghost"` // instrument message/pool natively with the ownership ghost state
 	Sched     []string          `json:"sched"` // package dirs instrumented with scheduling points for native schedule replay
+	// Stale lists harness functions whose file no longer type-checks against the current tree (an internal
+	// signature the harness calls was changed): they are dropped, reported, and make the run inconclusive
+	Stale []string `json:"-"`
 }
 
 type KnownFinding struct {
@@ -101,54 +104,98 @@ func pkgNameOf(file string) (string, error) {
 
 func loadProgram(repo, verif string, spec *Spec, syntaxOnly bool) (*loaded, error) {
 	start := time.Now()
-	overlay := map[string][]byte{}
-	var patterns []string
+	var initial []*packages.Package
 	names := map[string]string{}
-	seenDir := map[string]bool{}
-	for _, h := range spec.Harnesses {
-		src := filepath.Join(verif, "harness", h.File)
-		data, err := os.ReadFile(src)
+	for attempt := 0; ; attempt++ {
+		overlay := map[string][]byte{}
+		var patterns []string
+		names = map[string]string{}
+		seenDir := map[string]bool{}
+		virt := map[string]int{} // virtual harness path -> index in spec.Harnesses
+		for i, h := range spec.Harnesses {
+			src := filepath.Join(verif, "harness", h.File)
+			data, err := os.ReadFile(src)
+			if err != nil {
+				return nil, err
+			}
+			name, err := pkgNameOf(src)
+			if err != nil {
+				return nil, err
+			}
+			dir := filepath.Join(repo, h.Pkg)
+			vp := filepath.Join(dir, "zz_verif_h_"+filepath.Base(h.File))
+			overlay[vp] = data
+			virt[vp] = i
+			if !seenDir[h.Pkg] {
+				seenDir[h.Pkg] = true
+				overlay[filepath.Join(dir, "zz_verif_sym.go")] = []byte(symDecls(name, false))
+				p := modulePath
+				if h.Pkg != "." && h.Pkg != "" {
+					p += "/" + h.Pkg
+				}
+				patterns = append(patterns, p)
+				names[h.Pkg] = name
+			}
+		}
+		cfg := &packages.Config{
+			Mode:    packages.LoadAllSyntax,
+			Dir:     repo,
+			Overlay: overlay,
+			Env:     append(os.Environ(), "GOFLAGS=-mod=mod", "GOPROXY=off"),
+		}
+		var err error
+		initial, err = packages.Load(cfg, patterns...)
 		if err != nil {
 			return nil, err
 		}
-		name, err := pkgNameOf(src)
-		if err != nil {
-			return nil, err
-		}
-		dir := filepath.Join(repo, h.Pkg)
-		overlay[filepath.Join(dir, "zz_verif_h_"+filepath.Base(h.File))] = data
-		if !seenDir[h.Pkg] {
-			seenDir[h.Pkg] = true
-			overlay[filepath.Join(dir, "zz_verif_sym.go")] = []byte(symDecls(name, false))
-			p := modulePath
-			if h.Pkg != "." && h.Pkg != "" {
-				p += "/" + h.Pkg
+		nerr := 0
+		stale := map[int]string{}
+		foreign := 0
+		packages.Visit(initial, nil, func(p *packages.Package) {
+			for _, e := range p.Errors {
+				if strings.HasPrefix(p.PkgPath, modulePath) {
+					nerr++
+					file := e.Pos
+					if k := strings.Index(file, ":"); k >= 0 {
+						file = file[:k]
+					}
+					if i, ok := virt[file]; ok {
+						if _, seen := stale[i]; !seen {
+							stale[i] = e.Error()
+						}
+					} else {
+						fmt.Fprintf(os.Stderr, "load error in %s: %v\n", p.PkgPath, e)
+						foreign++
+					}
+				}
 			}
-			patterns = append(patterns, p)
-			names[h.Pkg] = name
+		})
+		if nerr == 0 {
+			break
 		}
-	}
-	cfg := &packages.Config{
-		Mode:    packages.LoadAllSyntax,
-		Dir:     repo,
-		Overlay: overlay,
-		Env:     append(os.Environ(), "GOFLAGS=-mod=mod", "GOPROXY=off"),
-	}
-	initial, err := packages.Load(cfg, patterns...)
-	if err != nil {
-		return nil, err
-	}
-	nerr := 0
-	packages.Visit(initial, nil, func(p *packages.Package) {
-		for _, e := range p.Errors {
-			if strings.HasPrefix(p.PkgPath, modulePath) {
-				fmt.Fprintf(os.Stderr, "load error in %s: %v\n", p.PkgPath, e)
-				nerr++
+		if foreign > 0 || len(stale) == 0 || attempt > 8 {
+			for i, msg := range stale {
+				fmt.Fprintf(os.Stderr, "load error in harness %s: %s\n", spec.Harnesses[i].File, msg)
 			}
+			return nil, fmt.Errorf("%d load errors in go-coap packages (does /repo compile?)", nerr)
 		}
-	})
-	if nerr > 0 {
-		return nil, fmt.Errorf("%d load errors in go-coap packages (does /repo compile?)", nerr)
+		// the repository compiles but some harness files do not (an internal function they call changed its
+		// signature): drop those files, remember their functions, and load again
+		var keep []HarnessSpec
+		for i, h := range spec.Harnesses {
+			if msg, bad := stale[i]; bad {
+				fmt.Fprintf(os.Stderr, "harness %s does not compile against the current tree and is dropped: %s\n", h.File, msg)
+				for _, f := range h.Funcs {
+					spec.Stale = append(spec.Stale, fmt.Sprintf("%s (%s): %s", f.Name, h.File, msg))
+				}
+				if len(h.Funcs) == 0 {
+					spec.Stale = append(spec.Stale, fmt.Sprintf("helpers in %s: %s", h.File, msg))
+				}
+				continue
+			}
+			keep = append(keep, h)
+		}
+		spec.Harnesses = keep
 	}
 	byDir := map[string]*packages.Package{}
 	packages.Visit(initial, nil, func(p *packages.Package) {
